@@ -64,7 +64,7 @@ CLAIMED.update({
             "600/1e4 cases x up to 3 re-runs; per-endpoint responses, toggles and delivered streams must be identical.",
             "Device address fixed, no CLEAR_FEATURE inside the compared histories; up to 3 endpoints compared per case.", "DESIGN.md §6 C12"),
     "C57": ("full-device host BFM against USBSerialDevice; device model specialised with independently built ACM descriptors",
-            "320/8e3 histories (enumeration order permutations, CDC requests, rx/tx data under back-pressure).",
+            "480/8e3 histories (enumeration order permutations, CDC requests, rx/tx data under back-pressure).",
             "FS only; SET_LINE_CODING in its valid form only.", "DESIGN.md §6 C57"),
 })
 
